@@ -468,8 +468,10 @@ func (c *Case) Failf(sig, format string, a ...any) {
 	}
 	msg := fmt.Sprintf(format, a...)
 	c.failed = true
-	cur := curLast[c.t.Name()]
-	cur.sig, cur.msg, cur.c, cur.set = sig, msg, c.JSON(), true
+	if c.t != nil {
+		cur := curLast[c.t.Name()]
+		cur.sig, cur.msg, cur.c, cur.set = sig, msg, c.JSON(), true
+	}
 	c.rt.Fatalf("[%s] %s", sig, msg)
 }
 
@@ -612,6 +614,24 @@ func Watchdog(d time.Duration) {
 			}
 		}
 	}()
+}
+
+// MakeFuzz adapts a harness property to Go's native fuzzing
+// (f.Fuzz(harness.MakeFuzz(prop))): the fuzzer's bytes drive rapid's draws.
+// Known findings are swallowed so that the campaign continues behind them.
+func MakeFuzz(prop func(rt *rapid.T, c *Case)) func(*testing.T, []byte) {
+	return rapid.MakeFuzz(func(rt *rapid.T) {
+		c := &Case{rt: rt, Data: map[string]any{}}
+		defer func() {
+			if r := recover(); r != nil {
+				if _, ok := r.(abandon); ok {
+					return
+				}
+				panic(r)
+			}
+		}()
+		prop(rt, c)
+	})
 }
 
 // TopRepoFrame extracts the first stack frame that belongs to fq itself.
